@@ -6,6 +6,7 @@ import (
 	"crypto/ecdsa"
 	"crypto/elliptic"
 	"crypto/rand"
+	"crypto/sha256"
 	"encoding/base64"
 	"encoding/json"
 	"fmt"
@@ -494,4 +495,32 @@ func (c *Corpus) SignWith(prevRefs []hash.SHA256Hash, lc uint32, payload []byte,
 	}
 	c.n++
 	return &CTx{Tx: tx, Raw: tx.Data(), Payload: payload, Ref: tx.Ref(), Prevs: tx.Previous(), LC: lc, Valid: true, Idx: c.n}, nil
+}
+
+// RawJWS signs arbitrary header JSON (no validation of header member types whatsoever) and a
+// payload with ES256: for transactions whose protected header carries type-confused members.
+func RawJWS(headerJSON, payload []byte, key *ecdsa.PrivateKey) []byte {
+	in := base64.RawURLEncoding.EncodeToString(headerJSON) + "." + base64.RawURLEncoding.EncodeToString(payload)
+	return []byte(in + "." + SignES256(in, key))
+}
+
+// SignES256 returns the base64url ES256 signature over the signing input.
+func SignES256(signingInput string, key *ecdsa.PrivateKey) string {
+	h := sha256.Sum256([]byte(signingInput))
+	r, s, err := ecdsa.Sign(rand.Reader, key, h[:])
+	if err != nil {
+		panic(err)
+	}
+	sig := make([]byte, 64)
+	r.FillBytes(sig[:32])
+	s.FillBytes(sig[32:])
+	return base64.RawURLEncoding.EncodeToString(sig)
+}
+
+// TxHeaderJSON is the protected header of a valid transaction (embedded key) as JSON.
+func TxHeaderJSON(prevs []hash.SHA256Hash, lc uint32, ctype string, key *ecdsa.PrivateKey, sigt time.Time) []byte {
+	spec := baseSpec(prevs, lc, hash.SHA256Hash{}, ctype, key, sigt)
+	spec.headers["alg"] = "ES256"
+	b, _ := json.Marshal(spec.headers)
+	return b
 }
